@@ -58,6 +58,27 @@ inline void furnishFile(nix::File &f) {
     mt.addSource(c1);
     g.addSource(c3);
     b.createDataFrame("zz_frame2", "t", cols);
+    // members whose names differ only in case / in a blank / look like an id
+    nix::DataArray c1a = b.createDataArray("zz_case", "t", nix::DataType::Double, nix::NDSize({1}));
+    nix::DataArray c2a = b.createDataArray("ZZ_CASE", "t", nix::DataType::Double, nix::NDSize({1}));
+    b.createDataArray("zz_case ", "t", nix::DataType::Double, nix::NDSize({1}));
+    nix::DataArray ua = b.createDataArray("abcdef01-2345-6789-abcd-ef0123456789", "t", nix::DataType::Double, nix::NDSize({1}));
+    g.addDataArray(c2a);
+    g.addDataArray(ua);
+    nix::Tag t1 = b.createTag("zz_Tag", "t", {0.0}), t2 = b.createTag("ZZ_TAG", "t", {0.0});
+    g.addTag(t2);
+    t1.addReference(c1a);
+    t1.addReference(ua);
+    // a block without tags, multi tags and groups
+    nix::Block pb = f.createBlock("zz_plain", "t");
+    nix::DataFrame pf = pb.createDataFrame("p_frame", "t", cols);
+    pf.rows(3);
+    nix::DataArray pa = pb.createDataArray("p_arr", "t", nix::DataType::Double, nix::NDSize({3}));
+    pa.appendDataFrameDimension(pf);
+    nix::DataArray pa2 = pb.createDataArray("p_arr2", "t", nix::DataType::Int32, nix::NDSize({3, 2}));
+    pa2.appendDataFrameDimension(pf, 0u);
+    pa2.appendSetDimension();
+    pa2.addSource(pb.createSource("p_source", "t"));
     nix::Section s = f.createSection("zz_section", "t");
     s.createProperty("zz_prop", nix::Variant(1.5));
     s.createSection("zz_sub", "t");
@@ -114,6 +135,14 @@ struct Prog {
         }
     }
     void finish() {
+        // harness hygiene: release every handle the program kept before the files are closed (what happens to
+        // handles that outlive close() is C11's subject and is exercised there on purpose)
+        dropHeld();
+        deadArrays.clear();
+        deadSections.clear();
+        deadSources.clear();
+        deadTags.clear();
+        deadFrames.clear();
         try { if (f && f.isOpen()) f.close(); } catch (...) {}
         try { if (other && other.isOpen()) other.close(); } catch (...) {}
     }
@@ -190,6 +219,12 @@ struct Prog {
     std::vector<std::pair<std::string, nix::Tag>> heldTags;
     std::vector<std::pair<std::string, nix::MultiTag>> heldMTags;
     std::vector<std::pair<std::string, nix::Group>> heldGroups;
+    // the handle returned by a create call is a handle a user keeps, too
+    template <typename E> void keepCreated(std::vector<std::pair<std::string, E>> &cache, const nix::Block &b, E created) {
+        if (!created || getenv("VERIF_NOKEEP")) return;
+        if (cache.size() < 3) cache.emplace_back(b.id(), created);
+        else cache[name_counter++ % 3] = std::make_pair(b.id(), created);
+    }
 
     nix::DataArray arr(const nix::Block &b) {
         if (!b) return nix::DataArray();
@@ -582,7 +617,7 @@ struct Prog {
                 for (size_t i = 0; i < rank; i++) shape[i] = 1 + t.below(4);
                 n = maybeDuplicate(n, si.bad, [&] { return b.dataArrayCount(); }, [&](size_t i) { return b.getDataArray(i); });
                 si.op = "Block.createDataArray";
-                b.createDataArray(n, ty, dt, shape, static_cast<nix::Compression>(t.below(3)));
+                keepCreated(heldArrays, b, b.createDataArray(n, ty, dt, shape, static_cast<nix::Compression>(t.below(3))));
                 break;
             }
             case 1: {
@@ -608,7 +643,7 @@ struct Prog {
                 std::vector<double> pos = dvec(3, true);
                 n = maybeDuplicate(n, si.bad, [&] { return b.tagCount(); }, [&](size_t i) { return b.getTag(i); });
                 si.op = "Block.createTag";
-                b.createTag(n, ty, pos);
+                keepCreated(heldTags, b, b.createTag(n, ty, pos));
                 break;
             }
             case 3: {
@@ -617,10 +652,10 @@ struct Prog {
                 si.is_link = true;
                 if (!a && si.bad.empty()) si.bad = "target_uninitialized";
                 n = maybeDuplicate(n, si.bad, [&] { return b.multiTagCount(); }, [&](size_t i) { return b.getMultiTag(i); });
-                b.createMultiTag(n, ty, a);
+                keepCreated(heldMTags, b, b.createMultiTag(n, ty, a));
                 break;
             }
-            case 4: n = maybeDuplicate(n, si.bad, [&] { return b.groupCount(); }, [&](size_t i) { return b.getGroup(i); }); si.op = "Block.createGroup"; b.createGroup(n, ty); break;
+            case 4: n = maybeDuplicate(n, si.bad, [&] { return b.groupCount(); }, [&](size_t i) { return b.getGroup(i); }); si.op = "Block.createGroup"; keepCreated(heldGroups, b, b.createGroup(n, ty)); break;
             default: n = maybeDuplicate(n, si.bad, [&] { return b.sourceCount(); }, [&](size_t i) { return b.getSource(i); }); si.op = "Block.createSource"; b.createSource(n, ty); break;
             }
             break;
